@@ -312,6 +312,45 @@ func bodyM(p pred, hist []wop, backpressure bool, subAfter int, masked bool, rep
 	}
 }
 
+// bodyConc: the subscription is opened by another thread WHILE the history is written: wherever the Pull lands
+// between the writes (and between a write's commit and its event), the seed is the filtered list of that moment
+// and the events are the filtered rest - folding them gives List with the same predicate.
+func bodyConc(p pred, hist []wop, backpressure bool, name string) func() {
+	return func() {
+		col := resource.NewCollection(resource.WithInitialRecord("a", msg(1)))
+		ctx, cancel := context.WithCancel(context.Background())
+		defer cancel()
+		view := map[string]int{}
+		var got []ev
+		go func() {
+			for e := range col.Pull(ctx, resource.WithInclude(p.fn()), resource.WithBackpressure(backpressure)) {
+				got = append(got, ev{e.ChangeType.String(), e.Id, vOf(e.OldValue), vOf(e.NewValue)})
+				if e.ChangeType == types.ChangeType_REMOVE {
+					delete(view, e.Id)
+				} else {
+					view[e.Id] = vOf(e.NewValue)
+				}
+			}
+		}()
+		go func() {
+			for _, w := range hist {
+				apply(col, w)
+			}
+		}()
+		verifrt.WaitIdle()
+		var parts []string
+		for _, id := range []string{"a", "b"} {
+			if v, ok := view[id]; ok {
+				parts = append(parts, fmt.Sprintf("%s=%d", id, v))
+			}
+		}
+		if v, l := strings.Join(parts, ","), listStr(col, p); v != l {
+			verifrt.Logf("FAIL fold-concurrent-subscribe %s ## the folded filtered stream is {%s}, the filtered collection is {%s}; events %v", name, v, l, got)
+		}
+		verifrt.Logf("OUT %v", got)
+	}
+}
+
 type bcase struct {
 	P      int
 	H      []wop
@@ -520,6 +559,21 @@ func main() {
 				h.Sched(name, q, -1, body(pred(p), hist, false, sub, func(k, m string) {
 					verifrt.Logf("FAIL %s %s ## %s", k, name, m)
 				}), hx.StdOracle)
+			}
+		}
+	}
+	// the subscription opened concurrently with the writes
+	for _, p := range []int{0b111111, 0b000110, 0b010010} {
+		for _, bp := range []bool{true, false} {
+			for _, hist := range [][]wop{
+				{{"add", "b", 2}},
+				{{"delete", "a", 0}},
+				{{"update", "a", 2}, {"add", "b", 1}},
+				{{"add", "b", 2}, {"delete", "a", 0}},
+			} {
+				p, hist, bp := p, hist, bp
+				name := fmt.Sprintf("concurrent-subscribe/bp=%v/%v/a=1 then %v", bp, pred(p), hist)
+				h.Sched(name, -1, -1, bodyConc(pred(p), hist, bp, name), hx.StdOracle)
 			}
 		}
 	}
